@@ -73,6 +73,15 @@ def worker(case, led):
                   key + ("todense",), f, rep)
         rev = order[::-1]
         led.check(close(np.asarray(a.todense(rev)).ravel() * a.coeff, T.dense_ttns(a, rev)), "post:TTNS.todense:order_argument", "TTNS.todense", "todense(reversed order) wrong", key + ("todense-rev",), f, rep)
+        # the default order is the tree's own list of basis sets; virtual (dummy) nodes carry no physical index
+        has_dummy = any(type(bb).__name__ == "BasisDummy" for bb in bt.basis_list)
+        try:
+            dflt = [bb for bb in bt.basis_list if type(bb).__name__ != "BasisDummy"]
+            led.check(close(np.asarray(a.todense()).ravel() * a.coeff, T.dense_ttns(a, dflt)), "post:TTNS.todense:default_order", "TTNS.todense",
+                      "todense() differs from the contraction in the order of basis.basis_list", key + ("todense-default",), dict(f, dummy_nodes=has_dummy), rep, nontrivial=has_dummy)
+        except Exception as e:
+            led.check(False, "post:TTNS.todense:default_order", "TTNS.todense", f"todense() with the default order raised {type(e).__name__}: {e}"
+                      + (" (the tree has virtual nodes)" if has_dummy else ""), key + ("todense-default",), dict(f, dummy_nodes=has_dummy), rep)
         # ---- arithmetic
         c = a.add(b)
         led.check(close(T.dense_ttns(c, order), va + vb), "post:TTNS.add:dense_sum", "TTNS.add", "dense(a+b) != dense(a)+dense(b)", key + ("add",), f, rep)
